@@ -90,6 +90,13 @@ func c01Programs(th bool) []map[string]interface{} {
 		cm["supplied2"] = pair[1]
 		out = append(out, cm)
 	}
+	// the default replaced by a tensor of ANOTHER extent along a dimension the declaration leaves open
+	for _, pair := range [][2][]string{{{"x", "w"}, {"x"}}, {{"x"}, {"x", "w"}}} {
+		cm := graphCase(shadow, []string{"x:3,2", "w:3,2"}, []string{"w:1,2"}, []string{"o", "w"}, pair[0])
+		cm["supplied2"] = pair[1]
+		cm["dyninputs"] = true
+		out = append(out, cm)
+	}
 	cm2 := graphCase([]gnode{{"Gemm", "x,w,b", "o", ""}}, []string{"x:2,2", "b:2"}, inits, []string{"o"}, []string{"x", "b"})
 	cm2["supplied2"] = []string{"x"}
 	out = append(out, cm2)
